@@ -514,6 +514,13 @@ func (a *xAnalysis) step(s *xState, idx int) {
 		}
 		switch op {
 		case "TESTQ", "TESTL":
+			// TESTQ r, r: the flags of comparing r with zero
+			if len(args) == 2 && args[0].Kind == OReg && args[1].Kind == OReg && args[0].Reg == args[1].Reg && isGPR(args[0].Reg) {
+				if v := s.regs[args[0].Reg]; v != nil {
+					s.cmpA, s.cmpB = v, linConst(0)
+				}
+				return
+			}
 			// TESTQ $2^b, r: the branch that follows learns bit b of r
 			if len(args) == 2 && args[0].Kind == OImm && args[1].Kind == OReg && isGPR(args[1].Reg) && args[0].Imm > 0 && args[0].Imm&(args[0].Imm-1) == 0 && args[0].Imm < 1<<16 {
 				if v := s.regs[args[1].Reg]; v != nil && ProveNonNeg(v, s.facts) {
